@@ -295,7 +295,14 @@ class CompiledRouter:
                     raise UnacceptableRouteError(
                         _NO_CHILDREN_ERR.format(uri_template, *cpc)
                     )
-                insert(new_node.children, path_index + 1)
+                try:
+                    insert(new_node.children, path_index + 1)
+                except UnacceptableRouteError:
+                    # NOTE: A deeper segment was rejected; do not leave the
+                    #   half-inserted branch behind, otherwise the rejected
+                    #   template would keep affecting later routes and lookups.
+                    nodes.remove(new_node)
+                    raise
 
         insert(self._roots)
         # NOTE(caselit): when compile is True run the actual compile step, otherwise
